@@ -29,10 +29,10 @@ import (
 	"github.com/ontio/ontology/common"
 	"github.com/ontio/ontology/common/config"
 	"github.com/ontio/ontology/common/constants"
+	cstates "github.com/ontio/ontology/core/states"
 	scom "github.com/ontio/ontology/core/store/common"
 	"github.com/ontio/ontology/core/store/ledgerstore"
 	"github.com/ontio/ontology/core/store/overlaydb"
-	cstates "github.com/ontio/ontology/core/states"
 	"github.com/ontio/ontology/core/types"
 	"github.com/ontio/ontology/smartcontract/event"
 	evm2 "github.com/ontio/ontology/smartcontract/service/evm"
@@ -59,7 +59,7 @@ const nEOA = 6
 
 func main() {
 	r := vf.NewRun("C07", "exploration",
-		"seeded histories of EIP-155 transactions on solo-consensus ledgers (chain id of the solo network, never mainnet): value transfers, contract creations (deployer of a generated runtime program, or a generated program run directly as init code) and calls into deployed programs. Programs are straight-line: SSTORE set/clear (literal or CALLVALUE), CALL with value {0,1,k GWei,SELFBALANCE,SELFBALANCE+1,CALLVALUE} to {fresh, EOA, deployed contract, ORIGIN, CALLER, fee receiver, precompile addresses, self}, CREATE of children {empty, runtime, selfdestructing to other / to self, reverting}, terminal STOP/RETURN/REVERT/INVALID/loop(OOG)/SELFDESTRUCT(other|self). Senders with ample, scarce and zero balance; gas price {0,1,500,2500,random} GWei; gas limit ample / around intrinsic / tight; value {0,1,small,max affordable,balance,>balance}; nonce {n-1,n,n+1,n+k}. A scripted prelude per chain reaches every outcome class once, the rest is random. A case = one transaction; trivial when nothing can move (zero value, zero gas price, no code); distinct by (kind, program, value, gas limit, gas price, sender tier, nonce mode)")
+		"seeded histories of EIP-155 transactions on solo-consensus ledgers (chain id of the solo network, never mainnet): value transfers, contract creations (deployer of a generated runtime program, or a generated program run directly as init code) and calls into deployed programs. Programs are straight-line: SSTORE set/clear (literal or CALLVALUE), CALL with value {0,1,k GWei,SELFBALANCE,SELFBALANCE+1,CALLVALUE} to {fresh, EOA, deployed contract, ORIGIN, CALLER, fee receiver, precompile addresses, self}, CREATE of children {empty, runtime, selfdestructing to other / to self, reverting}, terminal STOP/RETURN/REVERT/INVALID/loop(OOG)/SELFDESTRUCT(other|self). Senders with ample, scarce and zero balance; gas price {0,1,500,2500,random} GWei; gas limit ample / around intrinsic / tight; value {0,1,small,max affordable,balance,>balance}; nonce {n-1,n,n+1,n+k}. A scripted prelude per chain reaches every outcome class once, the rest is random. Separate chains carry refund-heavy histories on three hand-assembled contracts (store: set / clear / clear-some of slots 1..16 by bit mask, optional re-set after the clear, end STOP/REVERT/out-of-gas/INVALID; multi: calls a list of targets, ignoring failures, then ends likewise; factory: CREATEs m children that SELFDESTRUCT to a beneficiary given in calldata): k in 1..12 slots set over 1..3 transactions in one or several blocks, later all / part of them cleared in ONE transaction, directly or through multi; m in 1..6 children spawned, later (or in the same transaction) j of them destroyed in one transaction with beneficiary sender / other EOA / fresh / store / factory / fee receiver (never the child itself); both at once; the clearing frame reverting / running out of gas at the end, or inside a nested frame that fails while the outer one succeeds; gas limit = {just sufficient, 1.5x, 2x, 3x, 10x, 30..99%} of the gas the transaction needs before refunds (measured by a probe run with a tracer on a scratch overlay), gas price {0, 2500, random} GWei, ample and scarce senders. A case = one transaction; trivial when nothing can move (zero value, zero gas price, no code); distinct by (kind, program, value, gas limit, gas price, sender tier, nonce mode)")
 	scratch = vf.Scratch("c07")
 	defer os.RemoveAll(scratch)
 	rng := vf.NewRNG(vf.Seed())
@@ -76,8 +76,15 @@ func main() {
 	if vf.Thorough() {
 		workers = 12
 	}
-	vf.Parallel(nChains, workers, func(i int) {
-		runChain(r, i, rng.Sub(uint64(i)), nBlocks)
+	// refund-heavy histories (refund.go) run on chains of their own
+	nRefund := vf.N(12, 96)
+	nRounds := vf.N(22, 40)
+	vf.Parallel(nChains+nRefund, workers, func(i int) {
+		if i < nRefund {
+			runRefundChain(r, i, rng.Sub(uint64(1000000+i)), nRounds)
+			return
+		}
+		runChain(r, i-nRefund, rng.Sub(uint64(i-nRefund)), nBlocks)
 	})
 
 	for _, c := range []string{"outcome/success", "outcome/revert", "outcome/oog", "outcome/invalid-opcode", "outcome/intrinsic-gas", "outcome/insufficient-funds-for-transfer",
@@ -86,12 +93,31 @@ func main() {
 		"selfdestruct-other/executed", "selfdestruct-other/with-balance", "selfdestruct-self/executed", "selfdestruct-self/with-balance",
 		"sstore/set", "sstore/clear-refund", "sstore/clear-committed-refund", "adjusted-gas", "gas-price-zero", "sender/zero-balance", "value-to-fresh-address", "fee-receiver-is-value-target",
 		"bad-nonce-low/rejected", "bad-nonce-high/rejected", "bad-nonce/block-rejected-state-unchanged", "block/committed", "block/nonces-advanced",
-		"check/total", "check/nonce", "check/fee", "check/debit", "check/participants"} {
+		"check/total", "check/nonce", "check/fee", "check/debit", "check/participants", "check/not-richer", "check/charge"} {
 		r.Require(c, 3)
+	}
+	// refund-heavy histories: every class of refund.go, in particular the transactions whose refund
+	// counter (by the monitor's own count of cleared slots and destroyed children) exceeds half of
+	// / all of the gas they use while the gas limit leaves room for more
+	for c, min := range map[string]int64{
+		"refund/history": 100, "refund/history-sstore": 30, "refund/history-kill": 20, "refund/history-mixed": 8, "refund/measured-tx": 100,
+		"refund/set-tx": 100, "refund/slots-set": 300, "refund/spawn-tx": 30, "refund/spawn-with-endowment": 20,
+		"refund/cleared": 30, "refund/cleared-all": 12, "refund/cleared-some": 12, "refund/cleared-k=1-2": 3, "refund/cleared-k=3-5": 8, "refund/cleared-k=6-8": 3, "refund/cleared-k=9+": 8,
+		"refund/cleared-in-block-of-earlier-tx": 5, "refund/cleared-then-set-again": 5,
+		"refund/killed": 30, "refund/killed-j>=2": 20, "refund/killed-j=1": 3, "refund/killed-j=2": 5, "refund/killed-j=3": 5, "refund/killed-j=4": 3, "refund/killed-j=5": 3, "refund/killed-j=6": 5,
+		"refund/killed-beneficiary-sender": 5, "refund/killed-beneficiary-eoa": 5, "refund/killed-beneficiary-store": 5, "refund/killed-beneficiary-multi": 5, "refund/killed-beneficiary-fresh": 3, "refund/killed-beneficiary-fee-receiver": 3,
+		"refund/killed-with-balance": 20, "refund/spawned-and-killed-in-one-tx": 5, "refund/cleared-and-killed-in-one-tx": 8,
+		"refund/gas-x1": 8, "refund/gas-x1.5": 8, "refund/gas-x2": 15, "refund/gas-x3": 15, "refund/gas-x10": 8, "refund/gas-short": 8, "refund/gas-all-consumed": 8,
+		"refund/price-0": 8, "refund/price-2500": 50, "refund/price-random": 10, "refund/adjusted-gas": 3, "refund/via-multi": 40, "refund/direct": 30,
+		"refund/outcome-success": 80, "refund/outcome-revert": 8, "refund/outcome-oog": 8,
+		"refund/nested-frame-failed-outer-succeeded": 10, "refund/failed-tx-work-undone": 15, "refund/revert-at-the-end": 8, "refund/out-of-gas-after-the-work": 8,
+		"refund/granted": 50, "refund/counter-above-half-of-gas-used/limit>=1.5x": 30, "refund/counter-above-gas-used/limit>=2x": 20} {
+		r.Require(c, min)
 	}
 	r.Assume("chain id is the solo network's (12345); the mainnet-only special cases of buyGas/handleGasFee are out of the property's scope")
 	r.Assume("fine observation calls the exported (*StateStore).HandleEIP155Transaction with a CacheDB on a fresh overlay of the committed state, exactly as executeBlock does; the same signed transaction is then executed again inside a real block")
 	r.Assume("ledger.ExecuteBlock does not verify transaction signatures; the monitor signs every transaction correctly anyway")
+	r.Assume("refund histories: gas limits are sized from a probe run of the same call through evm.ApplyTransaction with a tracer (gas used by the outermost frame before refunds); the probe only shapes the workload, no verdict depends on it")
 	os.RemoveAll(scratch)
 	r.Finish()
 }
@@ -199,6 +225,9 @@ type txCase struct {
 	Tags      []string
 	tx        *types.Transaction
 	eip       *ethtypes.Transaction
+	// refund-heavy histories (refund.go)
+	Rf    *rfInfo                          // what the monitor planned and measured for this transaction
+	After func(a *applied, pre, post *obs) // coverage bookkeeping once the transaction was judged
 }
 
 func (t *txCase) desc(eo []*chain.EthAccount) map[string]interface{} {
@@ -215,6 +244,9 @@ func (t *txCase) desc(eo []*chain.EthAccount) map[string]interface{} {
 	}
 	if t.tx != nil {
 		d["tx_hex"] = hex.EncodeToString(t.tx.ToArray())
+	}
+	if t.Rf != nil {
+		d["refund_history_step"] = t.Rf
 	}
 	return d
 }
@@ -236,6 +268,8 @@ type chainState struct {
 	tb      *chain.TxBuilder
 	history [][]string // committed blocks: tx hex
 	ss      *ledgerstore.StateStore
+	prefix  []*txCase // transactions already applied in the block under construction
+	rf      *rfWorld  // refund-heavy histories only (refund.go)
 }
 
 func (s *chainState) poolAddrs() []ethcom.Address {
@@ -446,9 +480,9 @@ func (s *chainState) script() []func(cur *obs) *txCase {
 	}
 	return []func(cur *obs) *txCase{
 		deploy(&prog{Term: "selfdestruct", Benef: addrSpec{Kind: "self"}}, big.NewInt(0)), // 0
-		call(0, gv(7), 300000, 0),                                                                  // SELFDESTRUCT to self with a balance
-		deploy(&prog{Term: "selfdestruct", Benef: lit(fresh1, "fresh")}, gv(3)),                    // 1
-		call(1, gv(5), 300000, 0),                                                                  // SELFDESTRUCT to another address
+		call(0, gv(7), 300000, 0), // SELFDESTRUCT to self with a balance
+		deploy(&prog{Term: "selfdestruct", Benef: lit(fresh1, "fresh")}, gv(3)), // 1
+		call(1, gv(5), 300000, 0), // SELFDESTRUCT to another address
 		transfer(0, s.eo[4].Addr, gv(3000000000), 21000, 2500, "ok"),
 		deploy(&prog{Actions: []action{{Kind: "sstore", Slot: 1, Val: 5}}, Term: "stop"}, big.NewInt(0)), // 2: set
 		call(2, big.NewInt(0), 300000, 0),
@@ -469,13 +503,13 @@ func (s *chainState) script() []func(cur *obs) *txCase {
 		deploy(&prog{Actions: []action{{Kind: "call", To: lit(feeRcv, "fee-receiver"), Value: valSpec{Kind: "callvalue"}}}, Term: "stop"}, big.NewInt(0)), // 10
 		call(10, gv(6), 300000, 0),
 		deploy(&prog{Actions: []action{{Kind: "sstore-cv", Slot: 0}}, Term: "stop"}, big.NewInt(0)), // 11: slot0 = CALLVALUE
-		call(11, gv(8), 300000, 0),        // sets the slot (committed with the block)
-		call(11, big.NewInt(0), 300000, 1), // clears a committed non-zero slot: refund
-		transfer(0, s.eo[1].Addr, gv(1), 20999, 2500, "ok"),                                          // intrinsic gas too low
+		call(11, gv(8), 300000, 0),                          // sets the slot (committed with the block)
+		call(11, big.NewInt(0), 300000, 1),                  // clears a committed non-zero slot: refund
+		transfer(0, s.eo[1].Addr, gv(1), 20999, 2500, "ok"), // intrinsic gas too low
 		transfer(2, s.eo[1].Addr, new(big.Int).Mul(gv(1000000000), big.NewInt(1000000)), 21000, 500, "ok"), // value > balance
-		transfer(2, s.eo[1].Addr, gv(1), 4000000000, 2500, "ok"),                                    // gasLimit*price > balance: adjusted gas
-		transfer(5, s.eo[1].Addr, big.NewInt(0), 21000, 0, "ok"),                                    // zero-balance sender, free gas
-		transfer(5, s.eo[1].Addr, big.NewInt(0), 21000, 2500, "ok"),                                 // zero-balance sender, priced gas
+		transfer(2, s.eo[1].Addr, gv(1), 4000000000, 2500, "ok"),                                           // gasLimit*price > balance: adjusted gas
+		transfer(5, s.eo[1].Addr, big.NewInt(0), 21000, 0, "ok"),                                           // zero-balance sender, free gas
+		transfer(5, s.eo[1].Addr, big.NewInt(0), 21000, 2500, "ok"),                                        // zero-balance sender, priced gas
 		transfer(0, s.eo[1].Addr, gv(1), 21000, 2500, "low"),
 		transfer(0, s.eo[1].Addr, gv(1), 21000, 2500, "high"),
 	}
@@ -483,8 +517,10 @@ func (s *chainState) script() []func(cur *obs) *txCase {
 
 // ---------------------------------------------------------------- one chain
 
-func runChain(r *vf.Run, idx int, rng *vf.RNG, nBlocks int) {
-	tag := fmt.Sprintf("chain%d", idx)
+// openChain opens a fresh solo ledger and commits block 1: the bookkeeper (owner of all ONG on a
+// solo net) funds the senders: two ample, two scarce (around the price of one transaction), two
+// stay at zero.  The caller closes the ledger with the returned function.
+func openChain(r *vf.Run, tag string, nonceBase uint32, rng *vf.RNG) (*chainState, func()) {
 	dir := filepath.Join(scratch, tag)
 	c := &chain.Chain{Dir: dir, BK: bk, BKs: []*account.Account{bk}}
 	openMu.Lock()
@@ -492,13 +528,13 @@ func runChain(r *vf.Run, idx int, rng *vf.RNG, nBlocks int) {
 	openMu.Unlock()
 	if err != nil {
 		r.Inconclusive("cannot open ledger: " + err.Error())
-		return
+		return nil, func() {}
 	}
-	defer func() {
+	done := func() {
 		c.Close()
 		os.RemoveAll(dir)
-	}()
-	s := &chainState{r: r, tag: tag, c: c, rng: rng, byAddr: map[ethcom.Address]*contractInfo{}, tb: chain.NewTxBuilder(uint32(7000 + idx*100000)), ss: &ledgerstore.StateStore{}}
+	}
+	s := &chainState{r: r, tag: tag, c: c, rng: rng, byAddr: map[ethcom.Address]*contractInfo{}, tb: chain.NewTxBuilder(nonceBase), ss: &ledgerstore.StateStore{}}
 	for i := 0; i < nEOA; i++ {
 		s.eo = append(s.eo, chain.DetEthAccount(fmt.Sprintf("c07/eoa%d", i)))
 	}
@@ -508,8 +544,6 @@ func runChain(r *vf.Run, idx int, rng *vf.RNG, nBlocks int) {
 	}
 	s.pg = &progGen{rng: rng.Sub(77), eoas: eoAddrs, pool: s.poolAddrs, feeRcv: feeRcv}
 
-	// block 1: the bookkeeper (owner of all ONG on a solo net) funds the senders: two ample,
-	// two scarce (around the price of one transaction), two stay at zero
 	var funding []*types.Transaction
 	for i, amt := range []uint64{5000000000000000, 3000000000000000, 150000000 + uint64(rng.Intn(100000000)), 40000000 + uint64(rng.Intn(50000000))} {
 		t, err := s.tb.TransferTx("ong", bk, s.eo[i].OntAddr(), amt, 0, 20000)
@@ -519,8 +553,18 @@ func runChain(r *vf.Run, idx int, rng *vf.RNG, nBlocks int) {
 		funding = append(funding, t)
 	}
 	if !s.commitFurniture(funding) {
+		done()
+		return nil, func() {}
+	}
+	return s, done
+}
+
+func runChain(r *vf.Run, idx int, rng *vf.RNG, nBlocks int) {
+	s, done := openChain(r, fmt.Sprintf("chain%d", idx), uint32(7000+idx*100000), rng)
+	if s == nil {
 		return
 	}
+	defer done()
 	script := s.script()
 	for h := 2; h <= nBlocks; h++ {
 		// occasional refill of the scarce accounts (chain furniture, not judged)
@@ -658,6 +702,7 @@ func (s *chainState) block(n int, next func(cur *obs) *txCase) bool {
 	var good []*applied
 	var bad *txCase
 	var prefixHex []string
+	s.prefix = nil
 
 	for i := 0; i < n; i++ {
 		t := next(cur)
@@ -699,7 +744,7 @@ func (s *chainState) block(n int, next func(cur *obs) *txCase) bool {
 			return s.witness(t, pre, nxt, extra)
 		}
 		fpSrc := fmt.Sprintf("%s|%v|%s|%d|%d|%d|%s|%v", t.Kind, t.Prog, t.Value, t.GasLimit, t.GasGwei, t.From, t.NonceMode, t.Tags)
-		trivial := t.Value.Sign() == 0 && t.GasGwei == 0 && t.Prog == nil
+		trivial := t.Value.Sign() == 0 && t.GasGwei == 0 && t.Prog == nil && t.Rf == nil
 		fp := ""
 		if !trivial {
 			hs := sha256.Sum256([]byte(fpSrc))
@@ -731,6 +776,7 @@ func (s *chainState) block(n int, next func(cur *obs) *txCase) bool {
 		a := &applied{t: t, res: res, receipt: rc}
 		a.flagged = s.judge(a, pre, nxt, wit)
 		good = append(good, a)
+		s.prefix = append(s.prefix, t)
 		prefixHex = append(prefixHex, hex.EncodeToString(t.tx.ToArray()))
 		if t.Prog != nil && t.Kind != "deploy" && atomic.AddInt32(&sampled, 1) <= 5 {
 			r.Sample(map[string]interface{}{"tx": t.desc(s.eo), "outcome": classify(res.Err), "used_gas": res.UsedGas})
@@ -938,6 +984,38 @@ func (s *chainState) judge(a *applied, pre, post *obs, wit func(map[string]inter
 		sort.Strings(odd)
 		viol("unrelated-balance-changed:"+shape, strings.Join(odd, ", "))
 	}
+	// 6. a sender never ends up richer by its own transaction, except by what other accounts
+	// lost in it (value sent back by a contract, a SELFDESTRUCT naming it as beneficiary):
+	// judged on the observed balances alone, no log and no reported gas figure involved
+	r.Count("check/not-richer")
+	othersLost := new(big.Int)
+	for x := range seen {
+		if x != sender && delta(x).Sign() < 0 {
+			othersLost.Sub(othersLost, delta(x))
+		}
+	}
+	if delta(sender).Cmp(othersLost) > 0 {
+		viol("sender-richer:"+shape, fmt.Sprintf("sender gained %s wei by its own transaction while all other accounts together lost %s", delta(sender), othersLost))
+	}
+	// 7. the sender is charged exactly UsedGas*gasPrice on top of the value flows from and to it
+	r.Count("check/charge")
+	flow := new(big.Int)
+	feeLogSkipped := fee.Sign() == 0
+	for _, l := range logs {
+		if !feeLogSkipped && l.From == sender && l.To == feeRcv && l.Amount.Cmp(fee) == 0 {
+			feeLogSkipped = true
+			continue
+		}
+		if l.To == sender {
+			flow.Add(flow, l.Amount)
+		}
+		if l.From == sender {
+			flow.Sub(flow, l.Amount)
+		}
+	}
+	if want := new(big.Int).Sub(flow, fee); delta(sender).Cmp(want) != 0 {
+		viol("sender-charge-mismatch:"+shape, fmt.Sprintf("sender balance changed by %s, value flows %s - UsedGas*gasPrice %s = %s", delta(sender), flow, fee, want))
+	}
 
 	// ---- coverage bookkeeping + pool maintenance
 	if pre.bal(sender).Cmp(maxGas) < 0 {
@@ -1044,6 +1122,12 @@ func (s *chainState) judge(a *applied, pre, post *obs, wit func(map[string]inter
 				}
 			}
 		}
+	}
+	if s.rf != nil {
+		s.rf.track(pre, post)
+	}
+	if t.After != nil {
+		t.After(a, pre, post)
 	}
 	// contracts destroyed indirectly (called by the executed program) leave the pool
 	for _, ci := range append([]*contractInfo{}, s.pool...) {
